@@ -134,6 +134,48 @@ theorem recv_pres (k : Kcp) (buflen : Nat) : PresN 0 k (recv k buflen).k := by
 theorem recv_total {k : Kcp} (h : InvK k) (buflen : Nat) : InvK (recv k buflen).k :=
   h.of_pres (recv_pres k buflen)
 
+/-! ### `Recv` copies exactly `PeekSize` bytes -/
+
+theorem popMsg_length (l : List Seg) : (popMsg l).data.length = peekSum l := by
+  induction l with
+  | nil => rfl
+  | cons s rest ih =>
+    unfold popMsg peekSum
+    split
+    · rfl
+    · simp only [List.length_append, ih]
+
+theorem peekSize_eq (k : Kcp) (h : ¬ peekSize k < 0) : peekSize k = (peekSum k.rcv_queue : Int) := by
+  unfold peekSize at *
+  split at h
+  · exact absurd (by decide) h
+  · rename_i s rest hq
+    rw [hq] at h ⊢
+    split
+    · rename_i hf
+      unfold peekSum; rw [if_pos hf]
+    · rename_i hf
+      rw [if_neg hf] at h
+      split
+      · rename_i hlt; rw [if_pos hlt] at h; exact absurd (by decide) h
+      · rfl
+
+/-- the slicing `buffer = buffer[len(seg.data):]` of `Recv` cannot fail: what the merge loop copies
+is exactly `PeekSize()`, which was checked against `len(buffer)` -/
+theorem recv_fits (k : Kcp) (buflen : Nat) : (recv k buflen).data.length ≤ buflen := by
+  unfold recv
+  simp only []
+  split
+  · exact Nat.zero_le _
+  · rename_i h1
+    split
+    · exact Nat.zero_le _
+    · rename_i h2
+      simp only []
+      rw [popMsg_length]
+      rw [peekSize_eq k h1] at h2
+      omega
+
 /-! ### `Update` -/
 
 theorem update_total {k : Kcp} (h : InvK k) (now : U32) :
